@@ -243,7 +243,17 @@ def main(P, tier, replay=None):
     # ---- 3: cases ----
     if replay:
         j = json.load(open(replay))
-        cases = [Case(j["case"]["line"], j["case"].get("meta", {}))]
+        if "case" in j:
+            cases = [Case(j["case"]["line"], j["case"].get("meta", {}))]
+        else:
+            # a no-failing-input-found replay names obligations, not an input: say which of them are still open on this tree
+            cases = []
+            print("replay file names no input; obligations recorded in it:")
+            for o in j.get("open_obligations", []):
+                print("   - %s: %s" % (o.get("kind"), str(o.get("what"))[:300]))
+            print("open on the current tree: %d" % len(ctx["open_obligations"]))
+            for o in ctx["open_obligations"]:
+                print("   - %s: %s" % (o.get("kind"), str(o.get("what"))[:300]))
     else:
         cases = corpus_cases(pid) + P.gen(tier, rng)
     if P.harness:
@@ -255,7 +265,7 @@ def main(P, tier, replay=None):
     if MODEL_FAILURES and not fails:
         ctx["open_obligations"] += MODEL_FAILURES[:2]
 
-    if replay:
+    if replay and cases:
         for prof in ("debug", "release"):
             print("[%s] impl : %s" % (prof, res[prof][0]))
             if model_ok:
